@@ -117,6 +117,8 @@ type Case struct {
 	T      string // universe key (type of rule x)
 	Param  string // how the parameter receiving x's term is typed: exact any iface assignable | neg-othernamed neg-pointer neg-iface
 	Struct string // structural layout: ok shared | neg-missing neg-arity neg-ambiguous neg-returns neg-orphan neg-results0 neg-results2
+	Extra  string `json:",omitempty"` // a second use of x under another sugar (opt plus star list listopt) in a rule of its own
+	ExtraBefore bool `json:",omitempty"` // that rule is declared before the start rule
 	Detail string `json:",omitempty"`
 	Lox    string `json:",omitempty"`
 	Go     string `json:",omitempty"`
@@ -195,6 +197,30 @@ func (c *Case) paramType() (p string, legal bool, exists bool) {
 	panic("param kind " + c.Param)
 }
 
+// extra describes the second use of x: its term, the exact Go type of that term,
+// the token sequences between A and B, and the number of x elements in each.
+func (c *Case) extra() (term, tt string, mids [][]int, ns []int) {
+	if c.Skel == "tokstar" {
+		return
+	}
+	t := c.typ()
+	switch c.Extra {
+	case "opt":
+		return "x?", t.Type, [][]int{{tC}, {}}, []int{1, 0}
+	case "plus":
+		return "x+", "[]" + t.Type, [][]int{{tC}, {tC, tC}}, []int{1, 2}
+	case "star":
+		return "x*", "[]" + t.Type, [][]int{{}, {tC, tC, tC}}, []int{0, 3}
+	case "list":
+		return "@list(x, SEP)", "[]" + t.Type, [][]int{{tC}, {tC, tSEP, tC}}, []int{1, 2}
+	case "listopt":
+		return "@list(x, SEP)?", "[]" + t.Type, [][]int{{}, {tC, tSEP, tC, tSEP, tC}}, []int{0, 3}
+	}
+	return
+}
+
+var extraKinds = []string{"", "", "", "opt", "plus", "star", "list", "listopt"}
+
 var paramKinds = []string{"exact", "any", "iface", "assignable", "neg-othernamed", "neg-pointer", "neg-iface"}
 var structKinds = []string{"ok", "ok", "ok", "shared", "neg-missing", "neg-arity", "neg-ambiguous", "neg-returns", "neg-orphan", "neg-results0", "neg-results2"}
 
@@ -257,14 +283,30 @@ func (c *Case) render() (*rendered, bool) {
 	var lox strings.Builder
 	lox.WriteString("@lexer\nA = 'a'\nB = 'b'\nC = 'c'\nSEP = ','\n@frag ' ' @discard\n\n@parser\n")
 	// line numbers: the @start rule is on line 9
-	lox.WriteString("@start s = A " + term + " B\n")
+	extraTerm, extraTT, extraMid, extraN := c.extra()
 	sLine, s2Line := 9, 0
+	if extraTerm != "" && c.ExtraBefore {
+		lox.WriteString("e = A " + extraTerm + " B\n")
+		sLine++
+	}
+	lox.WriteString("@start s = A " + term + " B\n")
 	if c.Skel == "err" {
 		lox.WriteString("  | A @error B\n")
-		s2Line = 10
+		s2Line = sLine + 1
 	}
 	if c.Struct == "shared" || c.Struct == "neg-returns" {
 		lox.WriteString("  | B " + term + " A\n")
+	}
+	if extraTerm != "" {
+		lox.WriteString("  | SEP e\n")
+		if !c.ExtraBefore {
+			lox.WriteString("e = A " + extraTerm + " B\n")
+		}
+		for i, mid := range extraMid {
+			w := append([]int{tSEP, tA}, mid...)
+			r.sentences = append(r.sentences, append(w, tB))
+			r.expectN = append(r.expectN, extraN[i])
+		}
 	}
 	xLine := strings.Count(lox.String(), "\n") + 1
 	if c.Skel != "tokstar" {
@@ -476,7 +518,19 @@ func Run(toks []int, n int) (r Result) {
 		// the diagnostic must name that very method / rule
 	default:
 		// the fault involves rule s: any of its productions' lines or one of its methods
-		r.blame = []string{fmt.Sprintf("g.lox:%d:", sLine), fmt.Sprintf("g.lox:%d:", sLine+1), fmt.Sprintf("g.lox:%d:", sLine+2), "on_s"}
+		r.blame = []string{fmt.Sprintf("g.lox:%d:", sLine), fmt.Sprintf("g.lox:%d:", sLine+1), fmt.Sprintf("g.lox:%d:", sLine+2), fmt.Sprintf("g.lox:%d:", sLine+3), "on_s"}
+	}
+	if extraTerm != "" {
+		// the second use of x: exact parameter type, value checked like the main one
+		var want string
+		switch c.Extra {
+		case "opt":
+			want = fmt.Sprintf("func() %s { var w %s; if p.n == 1 { w = %s }; return w }()", extraTT, extraTT, elemVal)
+		default:
+			want = fmt.Sprintf("func() %s { var w %s; for i := 0; i < p.n; i++ { w = append(w, %s) }; return w }()", extraTT, extraTT, elemVal)
+		}
+		fmt.Fprintf(&g, "\nfunc (p *prs) on_e(a Token, v %s, b Token) int {\n\tif !(p.n == 0 && any(v) == nil) {\n\t\tp.check(\"parameter for second use %s\", v, %s)\n\t}\n\treturn 3\n}\n", extraTT, extraTerm, want)
+		g.WriteString("\nfunc (p *prs) on_s__e(a Token, v int) int { return v }\n")
 	}
 	if c.Skel == "err" {
 		g.WriteString("\nfunc (p *prs) on_s__err(a Token, e Error, b Token) int {\n\tp.errs++\n\treturn 2\n}\n")
@@ -559,6 +613,9 @@ func eval(run *ev.Run, cases []*Case, count bool) ([]verdict, error) {
 			run.Class("type:" + c.T)
 			run.Class("param:" + c.Param)
 			run.Class("struct:" + c.Struct)
+			if c.Extra != "" {
+				run.Class("second-use:" + c.Skel + "+" + c.Extra)
+			}
 			if r.positive {
 				run.Class("expected:accept")
 			} else {
@@ -694,9 +751,12 @@ func genCase(rt *rapid.T) *Case {
 			T:      universe[rapid.IntRange(0, len(universe)-1).Draw(rt, "type")].Key,
 			Param:  paramKinds[rapid.IntRange(0, len(paramKinds)-1).Draw(rt, "param")],
 			Struct: structKinds[rapid.IntRange(0, len(structKinds)-1).Draw(rt, "struct")],
+			Extra:  extraKinds[rapid.IntRange(0, len(extraKinds)-1).Draw(rt, "extra")],
 		}
+		c.ExtraBefore = c.Extra != "" && rapid.Bool().Draw(rt, "extraBefore")
 		if c.Skel == "tokstar" {
 			c.T = "tok"
+			c.Extra, c.ExtraBefore = "", false
 		}
 		if _, ok := c.render(); ok {
 			return c
@@ -709,7 +769,7 @@ const knownStarF = "C06-starf-without-discard"
 func TestC06(t *testing.T) {
 	run := ev.Start("C06")
 	defer run.Finish(t)
-	run.Rule = "grammar skeletons (sequence, x?, x+, x*, @list, @list?, x*!, an @error alternative, C* over tokens) x a type universe for the rule's result (int, string, pointer, named struct, unnamed and named slice, map, func, chan, interface, any, generic instance, imported time.Duration / *bytes.Buffer / *strings.Builder, a type imported from a package whose NAME equals the parser package's name (with and without a local type of the same name), array, unnamed struct, Token) x how the receiving parameter is typed (identical, any, implemented interface, assignable-but-not-identical named type or <-chan; negative: other named type with equal underlying type, value vs pointer, unimplemented interface) x structural layout (one method, method shared by two productions; negative: missing method, wrong arity, two matching methods, differing return types, orphan method, 0 or 2 results); the legality of every case is known by construction (no call to go/types); " +
+	run.Rule = "grammar skeletons (sequence, x?, x+, x*, @list, @list?, x*!, an @error alternative, C* over tokens) x a type universe for the rule's result (int, string, pointer, named struct, unnamed and named slice, map, func, chan, interface, any, generic instance, imported time.Duration / *bytes.Buffer / *strings.Builder, a type imported from a package whose NAME equals the parser package's name (with and without a local type of the same name), array, unnamed struct, Token) x how the receiving parameter is typed (identical, any, implemented interface, assignable-but-not-identical named type or <-chan; negative: other named type with equal underlying type, value vs pointer, unimplemented interface) x an optional second use of the same element rule under another sugar (x?, x+, x*, @list, @list?) in a rule declared before or after the start rule (helper rules are shared by name) x structural layout (one method, method shared by two productions; negative: missing method, wrong arity, two matching methods, differing return types, orphan method, 0 or 2 results); the legality of every case is known by construction (no call to go/types); " +
 		"oracle: (1) lox succeeds exactly on the legal cases and a failure's diagnostic names the production's line or the method; (2) on success the package compiles with the generated files (real go list + go build); (3) at run time every action parameter equals the value the producing action returned (reflect.DeepEqual; identity for pointers, channels, funcs; zero value for an absent x?), for 2-3 sentences per skeleton; " +
 		"non-trivial = negative case or parameter type not identical to the term's type; distinct by (skeleton, type, parameter kind, layout)"
 	run.Assumptions = []string{"Go assignability as in the language specification", "for interface-typed parameters an absent optional may arrive as untyped nil or as the boxed zero value"}
@@ -753,6 +813,50 @@ func TestC06(t *testing.T) {
 	}
 	if run.Violations() > 0 {
 		return
+	}
+	// pairwise sweep: every (sugar, second sugar, declaration order) combination once per run as a
+	// positive case, with type / parameter kind / layout drawn at random
+	{
+		var cases []*Case
+		fc := run.Check("pairwise", 1, 1, func(rt *rapid.T, fail ev.FailFunc) {
+			cases = nil
+			for _, sk := range skels {
+				if sk == "tokstar" {
+					continue
+				}
+				for _, ex := range extraKinds {
+					if ex == "" {
+						continue
+					}
+					for _, before := range []bool{false, true} {
+						for try := 0; try < 50; try++ {
+							c := &Case{Skel: sk, Extra: ex, ExtraBefore: before,
+								T:      universe[rapid.IntRange(0, len(universe)-1).Draw(rt, "type")].Key,
+								Param:  []string{"exact", "exact", "any", "assignable", "iface"}[rapid.IntRange(0, 4).Draw(rt, "param")],
+								Struct: []string{"ok", "shared"}[rapid.IntRange(0, 1).Draw(rt, "struct")],
+							}
+							if r, ok := c.render(); ok && r.positive && !r.uncompil {
+								cases = append(cases, c)
+								break
+							}
+						}
+					}
+				}
+			}
+		})
+		if fc != nil {
+			run.HarnessError("pairwise collect failed: %s\n%s", fc.Msg, fc.Log)
+		}
+		vs, err := eval(run, cases, true)
+		if err != nil {
+			run.HarnessError("%v", err)
+		}
+		for i, c := range cases {
+			if handle(c, vs[i]) {
+				return
+			}
+		}
+		run.ClassN("pairwise-sweep-cases", len(cases))
 	}
 	n := run.N(160, 2400)
 	const batch = 80
